@@ -12,6 +12,16 @@ namespace Teakra {
 class ICU {
 public:
     using IrqBits = std::bitset<16>;
+    void Reset() {
+        std::lock_guard lock(mutex);
+        request.reset();
+        for (auto& bits : enabled)
+            bits.reset();
+        vectored_enabled.reset();
+        vector_low.fill(0);
+        vector_high.fill(0);
+        vector_context_switch.fill(0);
+    }
     u16 GetRequest() const {
         std::lock_guard lock(mutex);
         return (u16)request.to_ulong();
